@@ -216,7 +216,23 @@ def printer_correspondence(v, tier, seed):
     m2 = re.search(r"=\s*\[(.*?)\]\s*:\s*list \(bool \* bool\)", so, re.S)
     if rc != 0 or not m1 or not m2:
         v.oblige(False)
-        v.violation("c18-coq-model", "numba printer model could not be evaluated: " + se[-300:], {}, no_input=True)
+        # search for a concrete failing input with Python's own parser: does the numba text read back as the tree?
+        found = 0
+        for tup, text in zip(tuples, texts):
+            if "j" in text:
+                continue      # complex literals are spelled by Python's repr: compared by execution only
+            try:
+                got = py_tree(ast.parse(text.strip(), mode="eval").body)
+                want = p_c16.named(pcanon_py(tup), lambda n: f"x{n}")
+                bad = got != want
+            except Exception:  # noqa: BLE001
+                bad = True
+            if bad and found < 3:
+                found += 1
+                v.violation(f"c18-search:{text[:60]}", f"numba text {text!r} does not read back as the AST it was printed from (Python's parser; found while the printer model was broken)",
+                            {"text": text, "tree": str(tup)})
+        if not found:
+            v.violation("c18-coq-model", "numba printer model could not be evaluated: " + se[-300:], {}, no_input=True)
         return st
     rendered = m1.group(1).replace("\n", " ").split("@@")
     flags = [(a.strip() == "true", b.strip() == "true") for a, b in re.findall(r"\((true|false),\s*(true|false)\)", m2.group(1))]
